@@ -101,7 +101,7 @@ func c03(c *core.Ctx, r *core.Report) {
 			return
 		}
 		addV := ssa.Value(addOp.Call.(*ssa.Call))
-		paths, err := an.DecisionPaths(alloc, 64)
+		paths, err := an.DecisionPathsInl(alloc, 256, 2, nil)
 		if err != nil {
 			r.Undecided("paths", c.Pos(alloc.Pos()), "%v", err)
 			return
@@ -111,12 +111,13 @@ func c03(c *core.Ctx, r *core.Report) {
 			v   string // "M" (max>0) or "G" (id>max)
 			neg bool
 		}
-		classify := func(cond ssa.Value) (sem, string) {
+		classify := func(l an.Lit) (sem, string) {
+			cond := l.Cond
 			bo, ok := an.Strip(cond).(*ssa.BinOp)
 			if !ok {
 				return sem{}, "condition " + an.D().Of(cond) + " is not a comparison"
 			}
-			x, y := an.Strip(bo.X), an.Strip(bo.Y)
+			x, y := an.Strip(l.T(bo.X)), an.Strip(l.T(bo.Y))
 			op := bo.Op
 			isMax := func(v ssa.Value) bool {
 				f, owner := an.TerminalField(v)
@@ -172,7 +173,7 @@ func c03(c *core.Ctx, r *core.Report) {
 					}
 					consistent := true
 					for _, l := range p.Lits {
-						s, why := classify(l.Cond)
+						s, why := classify(l)
 						if why != "" {
 							r.Violation(key, an.Pos(c, l.If), "%s", why)
 							return
@@ -217,23 +218,24 @@ func c03(c *core.Ctx, r *core.Report) {
 		if runner == nil {
 			panic(core.AnchorError{What: "iteration runner"})
 		}
-		sites := an.CallSitesOf(c, runner)
-		if !r.Floor("call sites of the iteration runner", len(sites), 2) {
+		runs, stray := workerRuns(c, runner)
+		for _, s := range stray {
+			r.Violation(core.FuncName(s.Parent())+"#run", an.Pos(c, s), "iteration runner called from %s, which is not (reached from) a pool worker goroutine", core.FuncName(s.Parent()))
+		}
+		if !r.Floor("runner calls in worker goroutines", len(runs), 2) {
 			return
 		}
-		for _, s := range sites {
-			fn := s.Parent()
+		for _, wr := range runs {
+			fn := wr.Worker
+			s := wr.Run
 			key := core.FuncName(fn) + "#run"
-			pos := an.Pos(c, s)
-			if len(an.GoTargetOf(c.AllFuncs, fn)) == 0 {
-				r.Violation(key, pos, "iteration runner called from %s, which is not a pool worker goroutine", core.FuncName(fn))
-				continue
-			}
-			loop, _ := an.NaturalLoopOf(s.Block())
+			pos := an.Pos(c, s.Instr)
+			root := s.Root()
+			loop, _ := an.NaturalLoopOf(root.Block())
 			var next *ssa.Call
-			for _, call := range an.AllCalls(fn) {
-				if isNextIteration(an.Callee(call)) && an.Dominates(call, s) && (loop == nil || loop[call.Block()]) {
-					next, _ = call.(*ssa.Call)
+			for _, e := range eventsBefore(fn, s, func(_ ssa.CallInstruction, t *ssa.Function) bool { return isNextIteration(t) }) {
+				if e.Frame.Parent == nil && (loop == nil || loop[e.Instr.Block()]) {
+					next, _ = e.Instr.(*ssa.Call)
 				}
 			}
 			if loop == nil || next == nil {
@@ -242,19 +244,9 @@ func c03(c *core.Ctx, r *core.Report) {
 			}
 			// error tested nil
 			guarded := false
-			for _, g := range an.GuardsOf(s.Block()) {
-				bo, ok := an.Strip(g.Cond).(*ssa.BinOp)
-				if !ok {
-					continue
-				}
-				ex, ok := an.Strip(bo.X).(*ssa.Extract)
-				if !ok || ex.Tuple != ssa.Value(next) || ex.Index != 1 {
-					continue
-				}
-				if k, ok := bo.Y.(*ssa.Const); ok && k.IsNil() {
-					if (bo.Op == token.NEQ && !g.Polarity) || (bo.Op == token.EQL && g.Polarity) {
-						guarded = true
-					}
+			for _, g := range an.GuardsOf(root.Block()) {
+				if errNilGuard(g, next) {
+					guarded = true
 				}
 			}
 			if !guarded {
@@ -262,31 +254,37 @@ func c03(c *core.Ctx, r *core.Report) {
 				continue
 			}
 			// Reset
-			var reset ssa.CallInstruction
-			for _, call := range an.AllCalls(fn) {
-				if isMethod(an.Callee(call), testingPkg, "T", "Reset") && an.Dominates(next, call) && an.Dominates(call, s) {
-					reset = call
+			var reset *an.Event
+			for _, e := range eventsBefore(fn, s, func(_ ssa.CallInstruction, t *ssa.Function) bool { return isMethod(t, testingPkg, "T", "Reset") }) {
+				e := e
+				if an.Dominates(next, e.Root()) || e.Root() == ssa.Instruction(next) {
+					reset = &e
 				}
 			}
 			if reset == nil {
 				r.Violation(key, pos, "no T.Reset between the id allocation and the runner call: the iteration observes a stale id and state")
 				continue
 			}
-			stateDesc := an.D().Of(s.Common().Args[1])
-			tDesc := an.D().Of(reset.Common().Args[0])
+			stateDesc := an.D().Of(s.Translate(s.Call().Common().Args[1]))
+			tDesc := an.D().Of(reset.Translate(reset.Call().Common().Args[0]))
+			if ld, ok := reset.Call().Common().Args[0].(*ssa.UnOp); ok {
+				if fa, ok := ld.X.(*ssa.FieldAddr); ok {
+					tDesc = an.D().Of(reset.Translate(fa.X)) + "." + an.FieldOfAddr(fa).Name()
+				}
+			}
 			if !strings.HasPrefix(tDesc, stateDesc+".") {
-				r.Violation(key, an.Pos(c, reset), "Reset is applied to %s but the runner receives %s", tDesc, stateDesc)
+				r.Violation(key, an.Pos(c, reset.Instr), "Reset is applied to %s but the runner receives %s", tDesc, stateDesc)
 				continue
 			}
-			fu, ok := an.Strip(reset.Common().Args[1]).(*ssa.Call)
+			fu, ok := an.Strip(reset.Translate(reset.Call().Common().Args[1])).(*ssa.Call)
 			okID := ok && an.IsFunc(an.Callee(fu), "strconv", "FormatUint")
 			if okID {
-				ex, isEx := an.Strip(fu.Call.Args[0]).(*ssa.Extract)
+				ex, isEx := an.Strip(reset.Translate(fu.Call.Args[0])).(*ssa.Extract)
 				base, isK := fu.Call.Args[1].(*ssa.Const)
 				okID = isEx && ex.Tuple == ssa.Value(next) && ex.Index == 0 && isK && base.Int64() == 10
 			}
 			if !okID {
-				r.Violation(key, an.Pos(c, reset), "Reset receives %s, not the decimal form of the id just allocated", an.D().Of(reset.Common().Args[1]))
+				r.Violation(key, an.Pos(c, reset.Instr), "Reset receives %s, not the decimal form of the id just allocated", an.D().Of(reset.Call().Common().Args[1]))
 				continue
 			}
 			r.OK(key, pos, "go-started worker: NextIteration → err==nil → Reset(FormatUint(id,10)) on %s → Run(%s)", tDesc, stateDesc)
@@ -349,8 +347,10 @@ func c03(c *core.Ctx, r *core.Report) {
 			panic(core.AnchorError{What: "iteration runner"})
 		}
 		n := 0
-		for _, s := range an.CallSitesOf(c, runner) {
-			fn := s.Parent()
+		runs, _ := workerRuns(c, runner)
+		for _, wr := range runs {
+			fn := wr.Worker
+			s := wr.Run.Root()
 			for _, call := range an.AllCalls(fn) {
 				if !isNextIteration(an.Callee(call)) {
 					continue
@@ -391,8 +391,9 @@ func c03(c *core.Ctx, r *core.Report) {
 		}
 		n := 0
 		seenFn := map[*ssa.Function]bool{}
-		for _, s := range an.CallSitesOf(c, runner) {
-			fn := s.Parent()
+		runs, _ := workerRuns(c, runner)
+		for _, wr := range runs {
+			fn := wr.Worker
 			if seenFn[fn] {
 				continue
 			}
@@ -426,7 +427,7 @@ func c03(c *core.Ctx, r *core.Report) {
 					}
 					n++
 					good := true
-					for _, e := range an.PathCountUntil(okSucc.Instrs[0], an.CallWeight(func(_ ssa.CallInstruction, t *ssa.Function) bool { return t == runner }, 0), stop) {
+					for _, e := range an.PathCountUntil(okSucc.Instrs[0], an.CallWeight(func(_ ssa.CallInstruction, t *ssa.Function) bool { return t == runner }, flatDepth), stop) {
 						if e.Count.Lo != 1 || e.Count.Hi != 1 {
 							good = false
 							r.Violation(core.FuncName(fn)+"#allocated-id-run", an.Pos(c, e.Instr), "after an id was allocated the iteration runs %s times before this exit of the loop iteration: the id is skipped (a gap, and fewer than max-iterations runs) or used twice", e.Count)
@@ -470,4 +471,25 @@ func reachesAvoiding(from *ssa.BasicBlock, target, avoid ssa.Instruction) bool {
 		}
 	}
 	return false
+}
+
+// errNilGuard: the guard states that the error result of call `next` is nil.
+func errNilGuard(g an.Guard, next *ssa.Call) bool {
+	bo, ok := an.Strip(g.Cond).(*ssa.BinOp)
+	if !ok {
+		return false
+	}
+	x, y := an.Strip(bo.X), bo.Y
+	if k, isK := x.(*ssa.Const); isK && k.IsNil() {
+		x, y = an.Strip(bo.Y), bo.X
+	}
+	ex, ok := x.(*ssa.Extract)
+	if !ok || ex.Tuple != ssa.Value(next) || ex.Index != next.Call.Signature().Results().Len()-1 {
+		return false
+	}
+	k, ok := y.(*ssa.Const)
+	if !ok || !k.IsNil() {
+		return false
+	}
+	return (bo.Op == token.NEQ && !g.Polarity) || (bo.Op == token.EQL && g.Polarity)
 }
